@@ -356,4 +356,58 @@ def trLiftOk (unsp : Option Nat) (P : CPolicy) (q : Pol.Policy) : Bool :=
   Pol.forallVals (Pol.atomsOfC P ++ Pol.atomsOf q)
     (fun v => Pol.holdsA (maskKey unsp v) q == Pol.holdsC (maskKey unsp v) P)
 
+/-! ## Large outputs: probe worlds instead of the full enumeration
+
+For outputs over many keys (resource-limit cases: conjunctions of ~100 keys, k-of-21) the `2^n`
+representative worlds cannot be enumerated.  `probeSem` compares policy and output on `O(n)`
+worlds only — a NECESSARY condition of equivalence (no soundness claim; it still separates k from
+k ± 1 and a dropped / duplicated key). -/
+
+def prefixes {α} : List α → List (List α)
+  | [] => [[]]
+  | a :: r => [] :: (prefixes r).map (a :: ·)
+
+/-- all atoms, none, every prefix of the key/hash atoms, all but one, exactly one; each at a
+"late" and an "early" time (every lock satisfied / no lock satisfied is not always realisable,
+so the lock candidates of `reps` are reused) -/
+def probeWorlds (L : List Atom) : List World :=
+  let N := nonLocks L
+  let sets := prefixes N ++ N.map (fun a => N.filter (· != a)) ++ N.map (fun a => [a])
+  sets.flatMap fun S =>
+    (absCands (afterVals L).eraseDups).flatMap fun lt =>
+      (relCands (olderVals L).eraseDups).map fun sq => mkWorld S lt sq
+
+def probeSem (P : CPolicy) (out : Ms) : Bool :=
+  (probeWorlds (Pol.atomsOfC P ++ msAtoms out)).all fun W => Pol.holdsCW W P == semMs out W
+
+def firstBadProbe (P : CPolicy) (out : Ms) : Option World :=
+  (probeWorlds (Pol.atomsOfC P ++ msAtoms out)).find? fun W => !(Pol.holdsCW W P == semMs out W)
+
+/-! ## Policies for which NO conforming output exists -/
+
+/-- the policy holds in some world in which NO key can sign (some set of known preimages, some
+nLockTime / nSequence; the worlds are the representatives of `reps`, hence by `reps_adequate`
+exactly: in SOME world): an equivalent output is satisfiable without any signature, so it does
+not require a signature on every path -/
+def siglessSatisfiable (P : CPolicy) : Bool :=
+  (reps ((Pol.atomsOfC P).filter fun a => !a.isKey)).any fun W => Pol.holdsCW W P
+
+def flipKey (W : World) (k : Nat) : World :=
+  { W with canSign := fun j => if j == k then !W.canSign k else W.canSign j }
+
+/-- the truth of the policy depends on key `k` in some world: every equivalent output has to
+mention `k` -/
+def dependsOnKey (P : CPolicy) (k : Nat) : Bool :=
+  (reps (Pol.atomsOfC P)).any fun W => Pol.holdsCW W P != Pol.holdsCW (flipKey W k) P
+
+/-- the policy depends on a key of a kind the context's sane rules forbid (uncompressed in
+Segwitv0 / Tap, x-only outside Tap) -/
+def needsForbiddenKey (env : KeyEnv) (ctx : Ctx) (P : CPolicy) : Bool :=
+  (keyIds (Pol.atomsOfC P)).any fun k => !pkOk env (saneParams ctx) k && dependsOnKey P k
+
+/-- Returning `Ok` for such a policy necessarily violates C08: an equivalent output would have
+to mention a key of a forbidden kind, or be satisfiable without a signature. -/
+def mustRefuse (env : KeyEnv) (ctx : Ctx) (P : CPolicy) : Bool :=
+  needsForbiddenKey env ctx P || siglessSatisfiable P
+
 end MsVerif.CC
